@@ -2,6 +2,7 @@ package props
 
 import (
 	"fmt"
+	"regexp"
 	"sort"
 	"strings"
 
@@ -125,3 +126,16 @@ func drawLayouts(t *rapid.T, n ast.Node, k int, wild int) ([]string, map[string]
 func convertTo(v cty.Value, ty cty.Type) (cty.Value, error) { return convert.Convert(v, ty) }
 
 type astNode = ast.Node
+
+var ctyMismatchDetail = regexp.MustCompile(`(element|attribute) ("[^"]*"|\d+): .*$`)
+
+// stableDetail removes the parts of a diagnostic detail that are not a function of the
+// input: go-cty turns a panic inside a function into an error carrying a stack trace with
+// addresses, and its type-mismatch message names whichever mismatching attribute Go's map
+// iteration happens to visit first (convert.MismatchMessage ranges over a map).
+func stableDetail(detail string) string {
+	if i := strings.Index(detail, "panic in function implementation"); i >= 0 {
+		detail = detail[:i] + "panic in function implementation"
+	}
+	return ctyMismatchDetail.ReplaceAllString(detail, "$1 <some mismatching member>")
+}
